@@ -81,3 +81,35 @@ Print Assumptions C07_route_frame.
 Print Assumptions C07_payment_conserves.
 Print Assumptions C07_swap_conserves.
 Print Assumptions C07_failed_tx_unchanged.
+
+From HT Require Import Amm.Known World.World Proofs.WFProofs Proofs.ReachProofs Proofs.SolventProofs Proofs.ReachCorollaries.
+
+Theorem C07_receiver_is_submitter_pays :
+  exists w', exec rc_w (OSwap 10 5 [(0, 100)] (ANative 0) 100 None None (Some 5)) = Ok w' /\
+             bal w' (ANative 0) 5 < bal rc_w (ANative 0) 5.
+Proof. exact receiver_is_submitter_pays. Qed.
+Print Assumptions C07_receiver_is_submitter_pays.
+
+Theorem C07_failed_op_changes_nothing : forall w o e, exec w o = Err e -> step w o = w.
+Proof. exact failed_op_changes_nothing. Qed.
+Print Assumptions C07_failed_op_changes_nothing.
+
+Theorem C07_run_app : forall ops1 ops2 w, run w (ops1 ++ ops2) = run (run w ops1) ops2.
+Proof. exact run_app. Qed.
+Print Assumptions C07_run_app.
+
+Theorem C07_receiver_never_decreases : forall w0 w o w',
+  WF w0 -> Solvent w0 -> reachable w0 w -> exec w o = Ok w' ->
+  match o with
+  | OSwap p c _ _ _ _ _ (Some r) =>
+      r <> c -> r <> p -> forall z, bal w z r <= bal w' z r
+  | OSend _ sender p _ (HSwap _ _ _ _ (Some r)) =>
+      r <> sender -> r <> p -> forall z, bal w z r <= bal w' z r
+  | OProvide p c _ _ _ _ _ _ (Some r) =>
+      r <> c -> r <> p -> forall ps, w_pairs w p = Some ps ->
+      (forall z, z <> AToken (p_lp ps) -> bal w' z r = bal w z r) /\
+      bal w (AToken (p_lp ps)) r <= bal w' (AToken (p_lp ps)) r
+  | _ => True
+  end.
+Proof. exact receiver_never_decreases. Qed.
+Print Assumptions C07_receiver_never_decreases.
